@@ -17,8 +17,8 @@ func (e StdEng) Map(fn interface{}, a Tensor, opts ...FuncOpt) (retVal Tensor, e
 	}
 
 	var reuse DenseTensor
-	var safe, _, incr bool
-	if reuse, safe, _, incr, _, err = handleFuncOpts(a.Shape(), a.Dtype(), a.DataOrder(), true, opts...); err != nil {
+	var safe, toReuse, incr bool
+	if reuse, safe, toReuse, incr, _, err = handleFuncOpts(a.Shape(), a.Dtype(), a.DataOrder(), true, opts...); err != nil {
 		return
 	}
 	switch {
@@ -52,10 +52,26 @@ func (e StdEng) Map(fn interface{}, a Tensor, opts ...FuncOpt) (retVal Tensor, e
 	}
 
 	// HANDLE USE CASES
+	var addToReuse bool
 	switch {
 	case !safe:
 		used = dataA
 		uit = ait
+	case toReuse && incr:
+		// fn is applied to a copy of a, which is then added to reuse
+		used = a.Clone().(Tensor).hdr()
+		uit = ait
+		incr, addToReuse = false, true
+	case toReuse:
+		// reuse is given the elements of a, fn is then applied to them in place
+		if useIter {
+			storage.CopyIter(typ, dataReuse, dataA, rit, ait)
+			rit.Reset()
+		} else {
+			storage.Copy(typ, dataReuse, dataA)
+		}
+		used = dataReuse
+		uit = rit
 	default:
 		used = dataReuse
 		uit = rit
@@ -71,13 +87,30 @@ func (e StdEng) Map(fn interface{}, a Tensor, opts ...FuncOpt) (retVal Tensor, e
 		err = errors.Wrapf(err, "Unable to apply function %v to tensor of %v", fn, typ)
 		return
 	}
+	if addToReuse {
+		if useIter {
+			ait.Reset()
+			err = e.E.AddIter(typ, dataReuse, used, rit, ait)
+		} else {
+			err = e.E.Add(typ, dataReuse, used)
+		}
+		if err != nil {
+			err = errors.Wrapf(err, "Unable to increment tensor of %v", typ)
+			return
+		}
+	}
 
 	// SET RETVAL
 	switch {
 	case reuse != nil:
-		if err = reuseCheckShape(reuse, a.Shape()); err != nil {
-			err = errors.Wrapf(err, "Reuse shape check failed")
-			return
+		// handleFuncOpts has given reuse the shape of a, up to the equality of vectors with row and column
+		// vectors. A reuse tensor that has exactly the shape of a is left alone: the result has been written
+		// through its own access pattern, which may hold a pending transpose.
+		if reuse.Dims() != a.Dims() || !reuse.Shape().Eq(a.Shape()) {
+			if err = reuseCheckShape(reuse, a.Shape()); err != nil {
+				err = errors.Wrapf(err, "Reuse shape check failed")
+				return
+			}
 		}
 		retVal = reuse
 	case !safe:
